@@ -14,6 +14,10 @@ def main() -> int:
     path = sys.argv[1]
     data = json.load(open(path))
     pid = data["property"]
+    hs = str(data.get("hashseed", "0"))
+    if os.environ.get("PYTHONHASHSEED") != hs:
+        # symbol numbering depends on the hash seed: re-run under the seed the case was found with
+        os.execvpe(sys.executable, [sys.executable, "-m", "hv.replay", path], dict(os.environ, PYTHONHASHSEED=hs))
     try:
         camp = find_campaign(load_module(pid), "quick", data["campaign"])
         camp.check(data["case"])
